@@ -12,6 +12,7 @@ to_bytes() twice gives equal bytes.
 """
 
 from dsim import domgen, domworld, gen, pipe
+from dsim.actors import LOAD_STREAMS
 
 ID = 'C18'
 LEVEL = 'exploration'
@@ -52,7 +53,8 @@ def gen_actor(rng, aid, ntrees, others):
                                    p_main_none=0.3)
             ops.append({'op': 'parse', 'tree': tn,
                         'hex': R.render_foreign(spec).hex(),
-                        'via': rng.choice(['shared_reader', 'from_bytes'])})
+                        'via': rng.choice(['shared_reader', 'from_bytes']),
+                        'stream': rng.choice(LOAD_STREAMS)})
         elif rng.chance(0.7) or not others:
             ops.extend(domgen.gen_tree_ops(rng, tn, max_changes=2,
                                            max_files=2, full=True,
@@ -61,7 +63,8 @@ def gen_actor(rng, aid, ntrees, others):
             ops.append({'op': 'parse', 'tree': tn,
                         'from': rng.choice(others),
                         'via': rng.choice(['shared_reader', 'from_bytes',
-                                           'from_stream'])})
+                                           'from_stream']),
+                        'stream': rng.choice(LOAD_STREAMS)})
 
     if rng.chance(0.4):
         # several sections carrying the *same* metadata value (each handed
@@ -223,7 +226,8 @@ def gen_actor(rng, aid, ntrees, others):
             ops.append({'op': 'parse', 'tree': tn,
                         'from': rng.choice(everyone),
                         'via': rng.choice(['shared_reader', 'from_bytes',
-                                           'from_stream'])})
+                                           'from_stream']),
+                        'stream': rng.choice(LOAD_STREAMS)})
 
             if rng.chance(0.4):
                 # ... after a parse of a damaged copy that (usually) fails
